@@ -881,3 +881,15 @@ Definition blob_full : Prop := forall is_Data b, b <> [] -> blob_fetch is_Data b
 
 Theorem blob_full_refuted : ~ blob_full.
 Proof. intros H. specialize (H true [120%N] ltac:(discriminate)). discriminate H. Qed.
+
+(* ------------------------------------------------------------------ N-d input: only the total size counts *)
+Theorem too_long_rejected_any_shape : forall w c n dims x,
+  dims <> [] -> (n < alen x)%nat -> store_nd w c AVertex n dims x = Err ValueErr.
+Proof. intros w c n [|d ds] x Hd Hn; [congruence|]. apply too_long_rejected. assumption. Qed.
+
+Theorem shape_irrelevant : forall w c a n dims dims' x,
+  dims <> [] -> dims' <> [] -> run_num_nd w c a n dims x = run_num_nd w c a n dims' x.
+Proof. intros w c a n [|d ds] [|d' ds'] x H H'; congruence || reflexivity. Qed.
+
+Theorem zero_dim_rejected : forall w c a n x, exists e, store_nd w c a n [] x = Err e.
+Proof. intros w c a n x. unfold store_nd. destruct (replace_nan c x); eexists; reflexivity. Qed.
